@@ -685,7 +685,7 @@ static const std::vector<std::pair<TypeId, TypeId>> CROSS = {{T_INTEGER, T_DECIM
 static const TypeId ALLTYPES[] = {T_STRING, T_TOKEN, T_INTEGER, T_DECIMAL, T_DATE, T_QNAME, T_BOOLEAN, T_FLOAT, T_MYINT};
 
 // list-length bounds of one sub-space, by value alphabet and by kind family (unique/key vs keyref->*)
-struct Lens { int core = 0, ext = 0, nil = 0, small = 0, refCore = 0, refExt = 0, refNil = 0, refSmall = 0, twoCarriers = 2; };
+struct Lens { int core = 0, ext = 0, nil = 0, small = 0, refCore = 0, refExt = 0, refNil = 0, refSmall = 0, twoCarriers = 2; bool refExtAllFields = true; };
 static int g_lenOverride = -1;
 static std::string lens_json(const Lens& l) {
     return "{\"core\":" + std::to_string(l.core) + ",\"ext\":" + std::to_string(l.ext) + ",\"nil\":" + std::to_string(l.nil) + ",\"small\":" + std::to_string(l.small) +
@@ -693,7 +693,7 @@ static std::string lens_json(const Lens& l) {
 }
 
 // S1: value space. selector r, one field, every type, full alphabets.
-static void space_values(int scope, const Lens& L, const std::vector<int>& fields) {
+static void space_values(int scope, const Lens& L, const std::vector<int>& fields, bool cross = true) {
     for (int kind = 0; kind < NKIND; kind++) {
         bool ref = kind >= K_REF_KEY;
         for (int f : fields) for (TypeId t : ALLTYPES) {
@@ -701,6 +701,7 @@ static void space_values(int scope, const Lens& L, const std::vector<int>& field
                 if (vs == VSET_NIL && !(f == F_K || f == F_DOT || f == F_KORATK)) continue;
                 Def d; d.kind = kind; d.sel = S_R; d.fields = {f}; d.scope = scope; d.keyType = d.refType = t; d.vset = vs;
                 d.maxLen = vs == VSET_CORE ? (ref ? L.refCore : L.core) : vs == VSET_EXT ? (ref ? L.refExt : L.ext) : vs == VSET_NIL ? (ref ? L.refNil : L.nil) : (ref ? L.refSmall : L.small);
+                if (ref && vs == VSET_EXT && !L.refExtAllFields && !(f == F_ATK || f == F_K)) continue;
                 if (f == F_KORATK) {   // two carriers: the product alphabet is taken over the small / tiny value sets
                     if (vs == VSET_EXT) continue;
                     if (vs == VSET_CORE) d.vset = VSET_SMALL;
@@ -710,7 +711,7 @@ static void space_values(int scope, const Lens& L, const std::vector<int>& field
                 add_def(d);
             }
         }
-        if (ref) for (auto& pr : CROSS) for (int f : fields) {
+        if (ref && cross) for (auto& pr : CROSS) for (int f : fields) {
             if (f == F_ATPK || f == F_KORATK) continue;   // p:k is one global attribute declaration: one type
             for (int vs : {VSET_CORE, VSET_EXT, VSET_SMALL}) {
                 Def d; d.kind = kind; d.sel = S_R; d.fields = {f}; d.scope = scope; d.keyType = pr.first; d.refType = pr.second; d.vset = vs;
@@ -723,8 +724,9 @@ static void space_values(int scope, const Lens& L, const std::vector<int>& field
 
 // S2: path space. every selector x 1-2 fields, small value alphabets, tuples at every position.
 //   L.small / L.refSmall: one field;  L.core / L.refCore (re-used as "two fields" bounds)
-static void space_paths(int scope, int len1, int len1Ref, int len2, int len2Ref, bool allSelectors) {
+static void space_paths(int scope, int len1, int len1Ref, int len2, int len2Ref, bool allSelectors, bool thorough) {
     std::vector<int> sels = {S_R, S_DESC_R, S_STAR, S_A_R, S_R_OR_S, S_P_R};
+    if (!allSelectors && !thorough) sels = {S_R, S_DESC_R, S_STAR, S_P_R};
     if (allSelectors) { sels.push_back(S_CHILD_AXIS); sels.push_back(S_NS_ANY); }
     for (int kind = 0; kind < NKIND; kind++) {
         bool ref = kind >= K_REF_KEY;
@@ -733,6 +735,7 @@ static void space_paths(int scope, int len1, int len1Ref, int len2, int len2Ref,
                 Def d; d.kind = kind; d.sel = sel; d.fields = {f}; d.scope = scope; d.keyType = d.refType = T_INTEGER; d.vset = VSET_SMALL;
                 d.positions = {P_CHILD, P_IN_A, P_DEEP, P_S, P_PR};
                 d.maxLen = ref ? len1Ref : len1;
+                if (ref && !thorough && d.maxLen >= 2) d.positions = {P_CHILD, P_IN_A, P_S, P_PR};
                 if (f == F_KORATK) { d.vset = VSET_TINY; d.positions = {P_CHILD, P_IN_A, P_PR}; if (ref && len2Ref > 0) d.maxLen = std::min(d.maxLen, len2Ref); if (!ref) d.maxLen = std::min(d.maxLen, 2); }
                 add_def(d);
             }
@@ -752,11 +755,12 @@ static void space_paths(int scope, int len1, int len1Ref, int len2, int len2Ref,
 }
 
 // S2b: two fields, value-space sensitive (tuples compared member by member), mixed types
-static void space_pairs(int scope, int len, int lenRef) {
+static void space_pairs(int scope, int len, int lenRef, bool thorough) {
     for (int kind = 0; kind < NKIND; kind++) {
         bool ref = kind >= K_REF_KEY;
         for (auto fp : std::vector<std::pair<int, int>>{{F_ATK, F_K}, {F_K, F_ATK}, {F_ATK, F_ATPK}, {F_DOT, F_ATK}})
-            for (auto tp : std::vector<std::pair<TypeId, TypeId>>{{T_INTEGER, T_NONE}, {T_DECIMAL, T_STRING}, {T_STRING, T_DECIMAL}, {T_FLOAT, T_DATE}, {T_BOOLEAN, T_QNAME}}) {
+            for (auto tp : std::vector<std::pair<TypeId, TypeId>>{{T_INTEGER, T_NONE}, {T_DECIMAL, T_STRING}, {T_FLOAT, T_DATE}, {T_STRING, T_DECIMAL}, {T_BOOLEAN, T_QNAME}}) {
+                if (!thorough && ref && (tp.first == T_STRING || tp.first == T_BOOLEAN)) continue;
                 Def d; d.kind = kind; d.sel = S_R; d.fields = {fp.first, fp.second}; d.scope = scope; d.keyType = d.refType = tp.first; d.type2 = tp.second; d.vset = VSET_SMALL;
                 d.maxLen = ref ? lenRef : len;
                 add_def(d);
@@ -794,6 +798,7 @@ static void space_growth(const std::vector<int>& ns, int len, bool all500) {
             if (scope == SC_FLAT && n != 50) continue;
             if (n >= 500 && !all500 && (place != 2 || f != F_ATK)) continue;
             if (n >= 50 && n < 500 && !all500 && f != F_ATK && scope == SC_ROOT) continue;
+            if (n < 50 && !all500 && place != 2) continue;
             Def d; d.kind = kind; d.sel = S_R; d.fields = {f}; d.scope = scope; d.keyType = d.refType = t; d.vset = VSET_SMALL; d.maxLen = len;
             d.fillerN = n; d.fillerPlace = place;
             add_def(d);
@@ -862,18 +867,19 @@ int main(int argc, char** argv) {
         L.refCore = N("refcore", root ? 0 : 2, root ? 2 : 3); L.refExt = N("refext", root ? 0 : 2, root ? 1 : 2); L.refNil = N("refnil", root ? 0 : 2, root ? 2 : 3);
         L.refSmall = N("refsmall", root ? 2 : 3, root ? 2 : 4);
         L.twoCarriers = N("twocarriers", 2, 3);
-        if (root) space_values(SC_ROOT, L, T ? std::vector<int>{F_ATK, F_K, F_DOT} : std::vector<int>{F_ATK, F_K});
+        L.refExtAllFields = T;
+        if (root) space_values(SC_ROOT, L, T ? std::vector<int>{F_ATK, F_K, F_DOT} : std::vector<int>{F_ATK, F_K}, T);
         else space_values(SC_FLAT, L, {F_ATK, F_K, F_DOT, F_ATPK, F_KORATK});
         bounds = "\"list_len\":" + lens_json(L);
     } else if (space == "paths") {
         int l1 = N("len1", 2, 3), l1r = N("len1ref", 2, 2), l2 = N("len2", 1, 2), l2r = N("len2ref", 1, 1), pl = N("pairlen", 2, 3), plr = N("pairreflen", 2, 2);
-        space_paths(SC_FLAT, l1, l1r, l2, l2r, true);
-        space_pairs(SC_FLAT, pl, plr);
+        space_paths(SC_FLAT, l1, l1r, l2, l2r, true, T);
+        space_pairs(SC_FLAT, pl, plr, T);
         bounds = "\"list_len\":{\"one_field\":" + std::to_string(l1) + ",\"one_field_ref\":" + std::to_string(l1r) + ",\"two_fields\":" + std::to_string(l2) + ",\"two_fields_ref\":" + std::to_string(l2r) +
                  ",\"typed_pairs\":" + std::to_string(pl) + ",\"typed_pairs_ref\":" + std::to_string(plr) + "}";
     } else if (space == "rootpaths") {
         int l1 = N("len1", 1, 2), l1r = N("len1ref", 1, 1);
-        space_paths(SC_ROOT, l1, l1r, 0, 0, false);
+        space_paths(SC_ROOT, l1, l1r, 0, 0, false, T);
         bounds = "\"list_len\":{\"one_field\":" + std::to_string(l1) + ",\"one_field_ref\":" + std::to_string(l1r) + "}";
     } else if (space == "scopes") {
         int lr = N("rec", 3, 4), lrr = N("recref", 2, 3), lu = N("up", 3, 4);
